@@ -1365,7 +1365,7 @@ Proof.
     [injection H as <- <-; split; [exact Hi|split; intros E; vm_compute in E; discriminate]|].
   destruct (c_in_status c =? c_HTP_STREAM_ERROR);
     [injection H as <- <-; split; [exact Hi|split; intros E; vm_compute in E; discriminate]|].
-  destruct (match c_in_tx c with None => negb (req_state_eqb (c_in_state c) REQ_IDLE) | Some _ => false end);
+  destruct (match c_in_tx c with None => negb (req_state_eqb (c_in_state c) REQ_IDLE) && negb (c_in_status c =? c_HTP_STREAM_TUNNEL) | Some _ => false end);
     [injection H as <- <-; split; [exact Hi|split; intros E; vm_compute in E; discriminate]|].
   destruct ((len =? 0)%nat && negb (c_in_status c =? c_HTP_STREAM_CLOSED));
     [injection H as <- <-; split; [exact Hi|split; intros E; vm_compute in E; discriminate]|].
